@@ -23,6 +23,9 @@ thread_local! { static IN_CALL: std::cell::Cell<bool> = std::cell::Cell::new(fal
 pub static RECORD_EVENTS: std::sync::atomic::AtomicBool = std::sync::atomic::AtomicBool::new(false);
 thread_local! { pub static LAST_EVENTS: std::cell::RefCell<Vec<String>> = std::cell::RefCell::new(Vec::new()); }
 pub fn last_events() -> Vec<String> { LAST_EVENTS.with(|e| e.borrow().clone()) }
+thread_local! { pub static LAST_TREE: std::cell::RefCell<Option<String>> = const { std::cell::RefCell::new(None) }; }
+/// the Debug form of the tree the parser returned in the call just made on this thread (None: the parser returned no tree)
+pub fn last_tree() -> Option<String> { LAST_TREE.with(|t| t.borrow().clone()) }
 
 /// panics inside the code under test are data (caught and recorded); panics of the harness itself are printed
 pub fn install_quiet_panic_hook() {
@@ -49,6 +52,7 @@ pub fn call(e: &str, expr: &str, ph: &Val) -> (Outcome, Ticks) {
     hooks::arm(step_bound(len) + 1);
     let rec = RECORD_EVENTS.load(std::sync::atomic::Ordering::Relaxed);
     if rec { hooks::record_events(true); }
+    hooks::record_tree(true);
     IN_CALL.with(|c| c.set(true));
     let r = catch_unwind(AssertUnwindSafe(|| -> Result<Val, String> {
         match (e, ph) {
@@ -62,6 +66,9 @@ pub fn call(e: &str, expr: &str, ph: &Val) -> (Outcome, Ticks) {
     }));
     IN_CALL.with(|c| c.set(false));
     if rec { let ev = hooks::take_events(); hooks::record_events(false); LAST_EVENTS.with(|e| *e.borrow_mut() = ev); }
+    let tree = hooks::take_tree();
+    hooks::record_tree(false);
+    LAST_TREE.with(|t| *t.borrow_mut() = tree);
     let c = hooks::read();
     hooks::reset();
     let t = Ticks { lex: c.lex, parse: c.parse, eval: c.eval, loops: c.loops };
